@@ -12,6 +12,8 @@ static int p_tile[NTASK][NF], p_op[NTASK][NF];
 static int p_expect[NTASK][NF];     /* version the flow must observe */
 static int p_newver[NTASK][NTILE];  /* version the task leaves in a tile it writes (0 = does not write) */
 static int p_is_flush[NTASK];
+static int p_repeat[NTASK][NF];     /* the flow names a tile that an earlier flow of the same task already names */
+static int tile_named_twice[NTILE]; /* some task named the tile in two or more flows */
 static int seqver[NTILE];           /* sequential oracle: version after executing the inserted tasks in insertion order */
 static int g_stamp;
 /* ghost view of the chains in insertion order */
@@ -26,6 +28,7 @@ static void prog_record(int k, int nfl, const int *tile, const int *op)
         p_tile[k][f] = tile[f]; p_op[k][f] = op[f];
         for(int t = 0; t < NTILE; t++) if(tile[f] == t) {
             p_expect[k][f] = before[t];
+            for(int g = 0; g < NF; g++) if(g < f && tile[g] == t) { p_repeat[k][f] = 1; tile_named_twice[t] = 1; }
             if(vp_is_write(op[f])) {
                 if(!p_is_flush[k]) { seqver[t] = before[t] + 1; p_newver[k][t] = before[t] + 1; }   /* a flush orders like a writer but keeps the value */
                 lw_task[t] = k; lw_flow[t] = f;
@@ -58,6 +61,11 @@ static int prog_try_run(int k)
                 for(int g = 0; g < NF; g++) if(g < p_nfl[j] && p_tile[j][g] == tl && (vp_is_write(p_op[k][f]) || vp_is_write(p_op[j][g])))
                     VASSERTM(p_done[j], "a task starts only after every earlier-inserted conflicting access of the tile completed");
             }
+            /* known finding C03-same-tile-twice, clause (i): a repeated parameter is NULL in the body when the task was
+             * linked behind a live predecessor and an earlier parameter writes the tile */
+#ifdef KF_EXCLUDE_C03_SAME_TILE_TWICE
+            if(!p_repeat[k][f])
+#endif
             VASSERTM(t->super.data[f].data_in == &CP(tl), "the flow receives the tile's current copy");
             VASSERTM(VAL[tl] == p_expect[k][f], "the task observes the value that sequential execution in insertion order produces");
         }
@@ -82,6 +90,10 @@ static void prog_check_final(void)
     }
     for(int t = 0; t < NTILE; t++) {
         VASSERTM(VAL[t] == seqver[t], "the data finally hold the value of the last inserted writer");
+        /* known finding C03-same-tile-twice, clause (ii): copy->readers ends at -1 */
+#ifdef KF_EXCLUDE_C03_SAME_TILE_TWICE
+        if(!tile_named_twice[t])
+#endif
         VASSERTM(CP(t).readers == 0, "no reader count left on the copy");
     }
     VASSERTM(g_nb_tasks == 0 && g_sched_unknown == 0, "termination counter balanced; nothing unknown scheduled/freed");
